@@ -47,12 +47,15 @@ fn ast_mode(text: &str) -> Value {
     match compiler::pipeline::pipeline::parse_ast_file(path, text) {
         Ok(file) => {
             let mut fns = serde_json::Map::new();
+            let mut sigs = serde_json::Map::new();
             for item in file.toplevels.iter() {
                 if let A::Item::Fn(f) = item {
                     fns.insert(f.name.0.clone(), expr(&f.body));
+                    sigs.insert(f.name.0.clone(), json!({"params": f.params.iter().map(|(_, t)| type_expr(t)).collect::<Vec<_>>(),
+                                                          "ret": f.ret_ty.as_ref().map(type_expr)}));
                 }
             }
-            json!({"verdict": "ok", "fns": fns})
+            json!({"verdict": "ok", "fns": fns, "sigs": sigs})
         }
         Err(e) => {
             let d: Vec<Value> = e.diagnostics().iter().map(diag_json).collect();
@@ -62,6 +65,33 @@ fn ast_mode(text: &str) -> Value {
             };
             json!({"verdict": verdict, "diags": d})
         }
+    }
+}
+
+/// type expressions as trees: {k: "con", n} | {k: "tuple", ts} | {k: "app", n, as} | {k: "array", len, e} | {k: "fn", ps, r} | {k: "dyn", n}
+pub fn type_expr(t: &A::TypeExpr) -> Value {
+    use A::TypeExpr::*;
+    let con = |n: &str| json!({"k": "con", "n": n});
+    match t {
+        TUnit => con("unit"),
+        TBool => con("bool"),
+        TInt8 => con("int8"),
+        TInt16 => con("int16"),
+        TInt32 => con("int32"),
+        TInt64 => con("int64"),
+        TUint8 => con("uint8"),
+        TUint16 => con("uint16"),
+        TUint32 => con("uint32"),
+        TUint64 => con("uint64"),
+        TFloat32 => con("float32"),
+        TFloat64 => con("float64"),
+        TString => con("string"),
+        TTuple { typs } => json!({"k": "tuple", "ts": typs.iter().map(type_expr).collect::<Vec<_>>()}),
+        TCon { path } => con(&path_str(path)),
+        TDyn { trait_path } => json!({"k": "dyn", "n": path_str(trait_path)}),
+        TApp { ty, args } => json!({"k": "app", "f": type_expr(ty), "as": args.iter().map(type_expr).collect::<Vec<_>>()}),
+        TArray { len, elem } => json!({"k": "array", "len": len, "e": type_expr(elem)}),
+        TFunc { params, ret_ty } => json!({"k": "fn", "ps": params.iter().map(type_expr).collect::<Vec<_>>(), "r": type_expr(ret_ty)}),
     }
 }
 
